@@ -8,12 +8,26 @@ HEADLINE = "TwistedProps.C16.line_seg_invariant"
 RULE = ("per receiver (int8/16/32, netstring, lineonly, line): grammar-built streams (valid frames with lengths around "
         "MAX_LENGTH, delimiters at every offset, invalid netstrings, over-long lines/prefixes) cut at random points, "
         "at every single cut point, and around delimiter/prefix boundaries; handler scripts that close, pause and "
-        "switch line/raw mode on the k-th message; resumeProducing interleaved; empty deliveries; "
-        "distinct = (receiver, sorted set of event kinds, #steps bucket, script features, closed?, kind of case)")
+        "switch line/raw mode on the k-th message — or pause and are resumed synchronously, re-entering dataReceived from "
+        "inside the callback (~1 act in 6 for IntN / LineReceiver); resumeProducing interleaved; empty deliveries; "
+        "configuration space (white-box mutation audit, harness/mutants/C16): MAX_LENGTH from 0 (IntN/line receivers; ~8% of "
+        "cases) through small values to the sizes named in the code (int8 127/128/254..300; corpus + a few generated "
+        "cases per run at the int16 sign bit 32767/32768, the prefix capacity 65535/65536, 4- and 5-digit netstring "
+        "lengths, 16384-byte lines); IntN length prefixes drawn from the whole prefix range (top bit set, all ones, "
+        "around 2**(8n-1); ~12% of frames); line delimiters from a grammar in ~45% of line cases (1-5 bytes; regex/format "
+        "metacharacters alone, doubled and mixed with letters; self-overlapping such as abab / CRLFCRLF; long random) with "
+        "line bodies over all delimiter bytes; every run case is additionally replayed with a SECOND live connection of "
+        "the same protocol class executing the same schedule one operation behind (oracle clause `interference`); "
+        "distinct = (receiver, sorted set of event kinds, #steps bucket, script features, closed?, kind of case, "
+        "configuration class: MAX 0/large, delimiter usual/metacharacter/4+ bytes/other)")
 ASSUMES = [
     "lineLengthExceeded / lengthLimitExceeded are the default implementations (they call transport.loseConnection())",
-    "message callbacks return None; an application is a script of (close, pause, raw-byte-count) per message index; the raw "
-    "handler keeps the counted bytes and then calls setLineMode(rest)",
+    "message callbacks return None; an application is a script of (close, pause, pause-and-synchronous-resume, raw-byte-count) "
+    "per message index; the raw handler keeps the counted bytes and then calls setLineMode(rest)",
+    "the Lean machines have no re-entrancy: a callback that pauses and is resumed before it returns (script flag r: "
+    "resumeProducing() re-enters dataReceived(b'') from inside the callback) is sent to the model as a callback that does "
+    "neither — which is what a receiver whose re-entrant dataReceived only buffers (LineReceiver._busyReceiving, and "
+    "IntNStringReceiver since the fix found by this audit) does; the oracle judges those cases from the statement alone",
     "delimiter is non-empty; NetstringReceiver.MAX_LENGTH >= 1 (MAX_LENGTH = 0 raises ValueError from math.log10 in the code); "
     "the Lean theorems themselves hold for the models at every delimiter / MAX_LENGTH",
     "the transport stops delivering after the first loseConnection() (schedules are played up to the first close request)",
@@ -23,6 +37,11 @@ ASSUMES = [
     "LineReceiver additionally with adjacent rawDataReceived chunks joined (raw chunking is the segmentation)",
     "line_send_receive is stated for applications that stay in line mode (script never asks for raw bytes)",
     "applications do not assign the deprecated IntNStringReceiver.recvd attribute",
+    "MAX_LENGTH and delimiter are fixed for the life of a connection (set on the class before makeConnection)",
+    "connections of one class are independent: the statement's 'reference framing of the stream' is read per connection, so "
+    "another live connection of the same class must not change what a connection delivers (oracle clause `interference`; "
+    "in the model this is pair_independent — machines are pure functions of their own state)",
+    "cases whose model line would exceed 140000 hex characters (messages of >= 64 KiB) are judged by the oracle only",
 ]
 TRUSTED = ["twisted.internet.testing.StringTransport as the transport fake",
            "CPython bytes.split / re / struct semantics as transcribed in Framing/*.lean (tied differentially on every run)"]
@@ -35,7 +54,9 @@ MANIFEST = {
             "at once); strings/lines within MAX_LENGTH are never rejected and what sendString/sendLine writes is received as exactly "
             "that message (*_send_receive; netstring: decimal length round trip and _maxLengthSize bound proved), longer ones are "
             "never delivered anywhere in a run (*_over_limit_never_delivered); split_join: the model of bytes.split satisfies the "
-            "join law. Proof shape: per-receiver splitting lemma (one delivery, then the reference on the rest = the reference on "
+            "join law; pair_independent: in any interleaving of the schedules of two live connections each delivers exactly "
+            "what its own schedule delivers alone. All theorems are for every MAX_LENGTH (0 included) and every non-empty "
+            "delimiter, which is the configuration space the generator now samples (see RULE). Proof shape: per-receiver splitting lemma (one delivery, then the reference on the rest = the reference on "
             "everything: resumption of a partial length/payload for netstrings, the line/raw/pause loop for LineReceiver) + the "
             "generic induction over schedules run_obs. Models of all six receiver classes are tied to protocols/basic.py by "
             "differential runs on structured streams with all single cuts.",
@@ -59,9 +80,19 @@ def _act(script, k):
     return False, False, 0
 
 
+_RUNAWAY = 20000        # no schedule here produces anywhere near this many events: an implementation that loops is stopped
+
+
+class _Log(list):
+    def append(self, x):
+        if len(self) >= _RUNAWAY:
+            raise RuntimeError("runaway receiver: more than %d events" % _RUNAWAY)
+        list.append(self, x)
+
+
 class _Mixin:
     def _setup(self, script):
-        self.log = []
+        self.log = _Log()
         self.script = script
         self.k = 0
         self.rawLeft = 0
@@ -69,8 +100,16 @@ class _Mixin:
     def _message(self, kind, data):
         self.log.append(f"{kind}:{_hx(data)}")
         pause, close, raw = _act(self.script, self.k)
+        self.sync = self.k < len(self.script) and "r" in self.script[self.k][0]
         self.k += 1
         return pause, close, raw
+
+    def _sync_resume(self):
+        """flag `r`: the callback pauses and is resumed synchronously, before it returns (a Deferred that has already
+        fired, a consumer with room) — resumeProducing() re-enters dataReceived(b"") from inside the callback"""
+        if self.sync:
+            self.pauseProducing()
+            self.resumeProducing()
 
 
 def _mk_int(recv, mx, script):
@@ -85,6 +124,7 @@ def _mk_int(recv, mx, script):
                 self.transport.loseConnection()
             if pause:
                 self.pauseProducing()
+            self._sync_resume()
 
         def lengthLimitExceeded(self, length):
             self.log.append(f"big:{length}")
@@ -130,6 +170,7 @@ def _mk_line(mx, delim, script):
                 self.transport.loseConnection()
             if pause:
                 self.pauseProducing()
+            self._sync_resume()
             if raw > 0:
                 self.rawLeft = raw
                 self.setRawMode()
@@ -200,6 +241,35 @@ def _play(c, ops, stop_at_close=True):
     return steps, p, t
 
 
+def _play_pair(c, ops):
+    """two live connections of the SAME protocol class, the second one executing the same schedule one operation behind
+    the first (so each works while the other holds a partial length / payload / line) → (events of 1st, events of 2nd)"""
+    p1, t1 = _make(c)
+    p2 = type(p1)()
+    p2._setup(c.get("script", []))
+    t2 = _Transport()
+    t2.plog = p2.log
+    p2.makeConnection(t2)
+
+    def do(p, t, op):
+        if t.disconnecting:
+            return
+        if op == "R":
+            if hasattr(p, "resumeProducing"):
+                p.resumeProducing()
+        else:
+            p.dataReceived(bytes.fromhex(op))
+    prev = None
+    for op in ops:
+        do(p1, t1, op)
+        if prev is not None:
+            do(p2, t2, prev)
+        prev = op
+    if prev is not None:
+        do(p2, t2, prev)
+    return list(p1.log), list(p2.log)
+
+
 def _show(steps):
     return "/".join("+".join(s) if s else "." for s in steps)
 
@@ -225,15 +295,22 @@ def _wire(c):
 # engine interface: model line, implementation run
 
 def _script_txt(script):
-    return ";".join(f"{a[0]}:{a[1]}" for a in script) if script else "-"
+    """the model has no re-entrancy: a callback that pauses and is resumed before it returns (`r`) leaves a receiver whose
+    re-entrant dataReceived only buffers exactly where a callback that does neither leaves it → `r` is sent as `n`"""
+    return ";".join(f"{a[0].replace('r', '') or 'n'}:{a[1]}" for a in script) if script else "-"
+
+
+_MODEL_LINE_LIMIT = 140000     # hex characters; beyond this the compiled model costs seconds per case → oracle-only
 
 
 def model_line(c):
     delim = c.get("delim") or "-"
     if c["kind"] == "send":
-        return f"send {c['recv']} {c['max']} {delim} " + ",".join(m or "-" for m in c["msgs"])
-    cmd = "runall" if c.get("after_close") else "run"
-    return f"{cmd} {c['recv']} {c['max']} {delim} {_script_txt(c.get('script', []))} " + ",".join(o or "-" for o in c["ops"])
+        ln = f"send {c['recv']} {c['max']} {delim} " + ",".join(m or "-" for m in c["msgs"])
+    else:
+        cmd = "runall" if c.get("after_close") else "run"
+        ln = f"{cmd} {c['recv']} {c['max']} {delim} {_script_txt(c.get('script', []))} " + ",".join(o or "-" for o in c["ops"])
+    return ln if len(ln) <= _MODEL_LINE_LIMIT else None
 
 
 def run_impl(c):
@@ -407,7 +484,13 @@ def oracle(c, impl_out):
     ref = _obs(_reference(c, stream))
     if once != ref:
         return {"key": f"{recv}:ref", "detail": f"max={c['max']} delim={c.get('delim')} script={c.get('script')} "
-                f"stream={stream.hex()}: at once {once}; reference framing {ref}"}
+                f"stream={stream.hex()[:400]}: at once {once}; reference framing {ref}"}
+    # (4) the framing is a function of THIS connection's stream: a second live connection of the same class, fed the
+    # same schedule one operation behind, changes nothing for either of them
+    e1, e2 = _play_pair(c, ops)
+    if _obs(e1) != got or _obs(e2) != got:
+        return {"key": f"{recv}:interference", "detail": f"max={c['max']} delim={c.get('delim')} script={c.get('script')} ops={ops}: "
+                f"alone {got}; with another live connection of the class interleaved: {_obs(e1)} and {_obs(e2)}"}
     return None
 
 
@@ -415,6 +498,25 @@ def oracle(c, impl_out):
 # generators
 
 DELIMS = ["0d0a", "0d0a", "0d0a", "0a", "6161", "616261", "00"]
+# bytes that mean something to re / fnmatch / printf-style formatting — a delimiter is data, never a pattern
+_META = b"|.$^*+?()[]{}\\%-"
+_OVERLAP = [b"abab", b"aaa", b"\r\n\r\n", b"aabaa", b"\n\n", b"ababa", b"\r\r\n", b"a\x00a\x00"]
+
+
+def _delim(rng):
+    """a delimiter: the usual ones, or drawn from a grammar — 1 to 5 bytes, regex metacharacters (alone, repeated, mixed
+    with letters: b"|", b"$$", b"a|b", b"\\n" ...), self-overlapping ones (b"abab", CRLFCRLF) and long random ones"""
+    r = rng.random()
+    if r < 0.55:
+        return bytes.fromhex(rng.choice(DELIMS))
+    if r < 0.70:
+        return bytes([rng.choice(_META)]) * rng.choice([1, 1, 1, 2])
+    if r < 0.80:
+        n = rng.randint(2, 4)
+        return bytes(rng.choice(_META + b"abn\r\n") for _ in range(n))
+    if r < 0.90:
+        return rng.choice(_OVERLAP)
+    return bytes(rng.choice(b"ab\r\n\x00\xff") for _ in range(rng.randint(3, 5)))
 
 
 def _rand_bytes(rng, n, alphabet=None):
@@ -438,6 +540,8 @@ def _script(rng, recv, nmsgs):
         raw = 0
         if recv == "line" and rng.random() < 0.3:
             raw = rng.choice([1, 2, 3, 5, 8])
+        if (recv in INTS or recv == "line") and flags in ("n", "c") and rng.random() < 0.2:
+            flags = "r" if flags == "n" else "rc"       # paused and resumed synchronously inside the callback
         out.append([flags, raw])
     return out
 
@@ -452,6 +556,14 @@ def _stream_for(rng, recv, mx, delim, script):
     if recv in INTS:
         n = INTS[recv][1]
         for _ in range(nm):
+            if rng.random() < 0.12:
+                # a length prefix from anywhere in the prefix's range: sign bit set, all ones, just below/above 2**(8n-1)
+                top = 256 ** n
+                ln = rng.choice([top // 2, top // 2 - 1, top // 2 + 1, top - 1, top - 2, top - 256 if n > 1 else top - 3,
+                                 rng.randrange(top // 2, top), rng.randrange(top)])
+                body = _rand_bytes(rng, ln if ln <= min(mx, 300) else rng.randint(0, 6))
+                parts.append(ln.to_bytes(n, "big") + body)
+                continue
             ln = _len_near(rng, mx)
             if ln >= 256 ** n:
                 ln = 256 ** n - 1
@@ -482,7 +594,7 @@ def _stream_for(rng, recv, mx, delim, script):
         k = 0
         for _ in range(nm):
             ln = _len_near(rng, mx)
-            alphabet = bytes(set(b"ab\r\n\x00" + delim[:1] + delim[-1:]))
+            alphabet = bytes(sorted(set(b"ab\r\n\x00" + delim)))
             body = _rand_bytes(rng, ln, alphabet)
             r = rng.random()
             if r < 0.8:
@@ -534,8 +646,10 @@ def _case(rng, recv=None, style=None):
     recv = recv or rng.choice(RECVS)
     mx = rng.choice([1, 2, 3, 4, 5, 9, 10, 11, 12, 20, 99, 100, 101])
     if recv == "int8":
-        mx = rng.choice([mx, 254, 255, 256, 300])
-    delim = bytes.fromhex(rng.choice(DELIMS)) if recv in ("lineonly", "line") else b""
+        mx = rng.choice([mx, 127, 128, 254, 255, 256, 300])
+    if recv != "netstring" and rng.random() < 0.08:
+        mx = 0                              # legal: only the empty message is within the limit
+    delim = _delim(rng) if recv in ("lineonly", "line") else b""
     script = _script(rng, recv, 4)
     stream = _stream_for(rng, recv, mx, delim, script)
     style = style or rng.choice(["once", "one", "one", "few", "few", "few", "bytes"])
@@ -548,13 +662,17 @@ def _case(rng, recv=None, style=None):
     return c
 
 
-def _send_case(rng):
+def _send_case(rng, tier="quick"):
     recv = rng.choice(RECVS)
+    if rng.random() < (0.03 if tier == "quick" else 0.004):     # a handful per run: each costs seconds in the model
+        return _big_send_case(rng, recv)
     mx = rng.choice([1, 2, 5, 10, 100, 255, 256, 300])
+    if recv != "netstring" and rng.random() < 0.08:
+        mx = 0
     c = {"kind": "send", "recv": recv, "max": mx}
     delim = b""
     if recv in ("lineonly", "line"):
-        delim = bytes.fromhex(rng.choice(DELIMS))
+        delim = _delim(rng)
         c["delim"] = delim.hex()
     msgs = []
     for _ in range(rng.randint(1, 4)):
@@ -565,6 +683,24 @@ def _send_case(rng):
     c["msgs"] = msgs
     total = sum(len(m) // 2 + 6 for m in msgs)
     c["cuts"] = sorted({rng.randint(0, total) for _ in range(4)})
+    return c
+
+
+def _big_send_case(rng, recv):
+    """one large message at the sizes named in the code: the int16 sign bit and prefix capacity, five-digit netstring
+    lengths, the default MAX_LENGTHs"""
+    if recv in INTS:
+        recv, sizes, mx = "int16", [32767, 32768, 32769, 40000, 65535, 65536], rng.choice([65535, 70000, 99999])
+    elif recv == "netstring":
+        sizes, mx = [999, 1000, 9999, 10000, 99999], 99999
+    else:
+        sizes, mx = [16383, 16384, 16385], 16384
+    n = rng.choice(sizes)
+    body = bytes(rng.choice(b"ab,:0") for _ in range(64)) * (n // 64 + 1)
+    c = {"kind": "send", "recv": recv, "max": mx, "msgs": [body[:n].hex(), "61"]}
+    if recv in ("lineonly", "line"):
+        c["delim"] = rng.choice(["0d0a", "0a"])
+    c["cuts"] = sorted({1, rng.randint(0, n), n, n + 2})
     return c
 
 
@@ -610,6 +746,40 @@ def corpus():
         {"kind": "send", "recv": "netstring", "max": 12, "msgs": ["", "61" * 10, "2c3a"], "cuts": [1, 3, 5]},
         {"kind": "send", "recv": "lineonly", "max": 4, "delim": cr, "msgs": ["61626364", "0d", "6162636465"], "cuts": [5, 6, 7]},
         {"kind": "send", "recv": "line", "max": 4, "delim": cr, "msgs": ["61626364", "0d", ""], "cuts": [5, 6, 7]},
+        # --- classes added by the white-box mutation audit (harness/mutants/C16) ---
+        # length prefixes with the top bit set / all ones (a signed struct format reads them as negative)
+        {"kind": "run", "recv": "int16", "max": 10, "script": [], "ops": ["ff61" + "61" * 10]},
+        {"kind": "run", "recv": "int16", "max": 10, "script": [], "ops": ["000161", "80", "00", "6161"]},
+        {"kind": "run", "recv": "int32", "max": 10, "script": [], "ops": ["ffffffff" + "61" * 10]},
+        {"kind": "run", "recv": "int32", "max": 10, "script": [], "ops": ["0000000161", "8000", "0000", "61"]},
+        {"kind": "run", "recv": "int8", "max": 300, "script": [], "ops": ["80" + "62" * 128 + "ff" + "63" * 200, "63" * 55 + "0161"]},
+        {"kind": "run", "recv": "int16", "max": 70000, "script": [], "ops": ["8000" + "61" * 20000, "61" * 12768 + "000162"]},
+        {"kind": "send", "recv": "int16", "max": 70000, "msgs": ["61" * 32768, "62"], "cuts": [1, 2, 32770]},
+        {"kind": "send", "recv": "int16", "max": 70000, "msgs": ["61" * 65535], "cuts": [65536]},
+        {"kind": "send", "recv": "int16", "max": 70000, "msgs": ["61" * 65536, "62"], "cuts": [2]},
+        {"kind": "send", "recv": "netstring", "max": 99999, "msgs": ["61" * 10000, "2c"], "cuts": [3, 5, 6, 10006]},
+        # MAX_LENGTH = 0: only empty messages are within the limit
+        {"kind": "run", "recv": "line", "max": 0, "delim": cr, "script": [], "ops": ["0d0a", "610d0a"]},
+        {"kind": "run", "recv": "line", "max": 0, "delim": cr, "script": [], "ops": ["0d0a0d", "0a61"]},
+        {"kind": "run", "recv": "lineonly", "max": 0, "delim": "0a", "script": [], "ops": ["0a0a", "610a"]},
+        {"kind": "run", "recv": "int8", "max": 0, "script": [], "ops": ["0000", "0161"]},
+        {"kind": "send", "recv": "line", "max": 0, "delim": cr, "msgs": ["", "", "61"], "cuts": [1, 2, 3]},
+        # delimiters that are regex metacharacters, long, self-overlapping
+        {"kind": "run", "recv": "lineonly", "max": 10, "delim": "7c", "script": [], "ops": ["61627c63647c"]},
+        {"kind": "run", "recv": "line", "max": 10, "delim": "2e", "script": [], "ops": ["61622e63", "642e"]},
+        {"kind": "run", "recv": "lineonly", "max": 10, "delim": "2424", "script": [], "ops": ["6124", "2462245e24", "24"]},
+        {"kind": "run", "recv": "line", "max": 10, "delim": "0d0a0d0a", "script": [], "ops": ["780d0a0d", "0a790d0a", "0d0a"]},
+        {"kind": "run", "recv": "lineonly", "max": 10, "delim": "0d0a0d0a", "script": [], "ops": ["780d0a0d", "0a790d0a", "0d0a"]},
+        {"kind": "run", "recv": "line", "max": 3, "delim": "6162616261", "script": [], "ops": ["78797a61626162", "61", "6162616261"]},
+        {"kind": "send", "recv": "lineonly", "max": 5, "delim": "5c6e", "msgs": ["610a", "5c", "6e"], "cuts": [2, 3, 4]},
+        # re-entrant resumeProducing: the callback pauses and is resumed before it returns (IntNStringReceiver used to parse its
+        # whole buffer again from the start in the nested dataReceived(b"") — the string being delivered was delivered again)
+        {"kind": "run", "recv": "int8", "max": 5, "script": [["r", 0]], "ops": ["016101620163"]},
+        {"kind": "run", "recv": "int16", "max": 5, "script": [["n", 0], ["r", 0]], "ops": ["00016100", "016200", "0163"]},
+        {"kind": "run", "recv": "int32", "max": 5, "script": [["p", 0], ["r", 0], ["rc", 0]], "ops": ["0000000161000000016200000001630000000164", "R", "R"]},
+        {"kind": "run", "recv": "line", "max": 5, "delim": "0a", "script": [["r", 0], ["r", 2]], "ops": ["610a620a5859630a"]},
+        # two live connections: a partial netstring payload / line / prefix held by each while the other works
+        {"kind": "run", "recv": "netstring", "max": 10, "script": [], "ops": ["333a6162", "632c313a", "782c"]},
     ]
 
 
@@ -618,7 +788,7 @@ def generate(rng, tier):
     for i in range(n):
         r = rng.random()
         if r < 0.08:
-            yield _send_case(rng)
+            yield _send_case(rng, tier)
         elif r < 0.16:
             # every single cut of a short structured stream
             c = _case(rng, style="once")
@@ -633,7 +803,7 @@ def generate(rng, tier):
 def search(rng, tier, disagreeing):
     """every split of the disagreeing streams, then all single cuts of fresh boundary streams"""
     for c in disagreeing[:20]:
-        if c["kind"] == "run":
+        if c["kind"] == "run" and len(_stream(c["ops"])) <= 400:
             yield from all_single_cuts(c)
     for _ in range(300 if tier == "quick" else 3000):
         c = _case(rng, style="once")
@@ -672,10 +842,22 @@ def shrink(c):
 
 def tag(c, out):
     if c["kind"] == "send":
-        return f"send:{c['recv']}:{'refused' if '!' in out else 'ok'}:{len(c['msgs'])}"
+        return f"send:{c['recv']}:{'refused' if '!' in out else 'ok'}:{len(c['msgs'])}:{_param_class(c)}"
     kinds = sorted({e.split(":")[0] for s in out.split("/") for e in s.split("+") if e != "."})
     sc = c.get("script", [])
-    feats = "".join(sorted({f for a in sc for f in a[0] if f != "n"})) + ("r" if any(a[1] for a in sc) else "")
+    feats = "".join(sorted({"s" if f == "r" else f for a in sc for f in a[0] if f != "n"})) + ("r" if any(a[1] for a in sc) else "")
     nsteps = len(c["ops"])
     bucket = "1" if nsteps == 1 else "2" if nsteps == 2 else "3-6" if nsteps <= 6 else "7+"
-    return f"{c['recv']}:{','.join(kinds) or 'none'}:{bucket}:{feats or '-'}:{'R' if 'R' in c['ops'] else '-'}:{'ac' if c.get('after_close') else ''}"
+    return (f"{c['recv']}:{','.join(kinds) or 'none'}:{bucket}:{feats or '-'}:{'R' if 'R' in c['ops'] else '-'}:"
+            f"{'ac' if c.get('after_close') else ''}:{_param_class(c)}")
+
+
+def _param_class(c):
+    """class of the configuration: MAX_LENGTH 0 / small / large; delimiter usual / metacharacter / 4+ bytes / other"""
+    mx = "z" if c["max"] == 0 else "L" if c["max"] > 1000 else ""
+    d = c.get("delim")
+    if not d:
+        return mx
+    b = bytes.fromhex(d)
+    dc = "" if d in DELIMS else "m" if any(x in _META for x in b) else "l" if len(b) >= 4 else "o"
+    return mx + dc
